@@ -1,4 +1,7 @@
 //! Sections of the reflection dump. Each section prints lines `key value...`.
+#[path = "dumps_write.rs"]
+mod dumps_write;
+
 pub fn dump(which: &[String]) {
     let all = which.is_empty();
     let want = |s: &str| all || which.iter().any(|w| w == s);
@@ -10,4 +13,6 @@ pub fn dump(which: &[String]) {
         println!("format {}", cfg!(feature = "format"));
         println!("std {}", cfg!(feature = "std"));
     }
+    // number→string side: dragonbox, grisu, int_tables, sizes
+    dumps_write::dump_write(&want);
 }
